@@ -452,7 +452,7 @@ def lname(n):
 
 
 def ty_lean(t):
-    if t == "OptF" or t == "Elem":
+    if t in ("OptF", "Elem", "SentLo", "SentHi"):
         return "Option Rat"
     if t == "OptNat":
         return "Option Nat"
@@ -543,6 +543,12 @@ def assigned_outer(node, bound=frozenset()):
             walk(x[1], bound)
             for _pats, body in x[2]:
                 walk(body, bound)
+        elif k == "matchg":
+            walk(x[1], bound)
+            for _pats, guard, body in x[2]:
+                if guard is not None:
+                    walk(guard, bound)
+                walk(body, bound)
         elif k in ("bin",):
             walk(x[2], bound); walk(x[3], bound)
         elif k in ("paren", "neg", "not", "cast", "field", "ref"):
@@ -570,12 +576,14 @@ def is_unit(e):
         return True
     if e[0] == "match":
         return all(is_unit(b) for _p, b in e[2])
+    if e[0] == "matchg":
+        return all(is_unit(b) or (b[0] == "block" and not b[1] and b[2] == ("tuple", [])) for _p, _g, b in e[2])
     if e[0] == "if":
         return e[3] is None or is_unit(e[2])
     if e[0] == "iflet":
         return e[4] is None or is_unit(e[3])
     if e[0] == "block":
-        return e[2] is None or (e[2][0] in ("if", "iflet", "block", "match", "for") and is_unit(e[2]))
+        return e[2] is None or (e[2][0] in ("if", "iflet", "block", "match", "matchg", "for") and is_unit(e[2]))
     return False
 
 
@@ -626,6 +634,8 @@ class Emit:
             return t, expect
         if ty == "NoneLit" and expect in ("OptF", "Elem", "OptNat"):
             return t, expect
+        if expect in ("SentLo", "SentHi") and ty == "Rat":
+            return f"some ({t})", expect        # a real value stored in a sentinel-initialised cache
         if expect == "OptF" and ty == "Nat":
             raise Unsupported("integer where a float is expected")
         if isinstance(expect, tuple) and expect[0] == "tuple" and ty != expect:
@@ -695,6 +705,11 @@ class Emit:
             if op in ("+", "-", "*", "/"):
                 if ta == tb and ta in ("Nat", "Rat"):
                     return f"({a} {op} {b})", ta
+                if op == "-" and {ta, tb} <= {"Rat", "SentLo", "SentHi"}:
+                    # arithmetic on a sentinel (`T::MIN` / `T::MAX`) has no exact reading: `none`
+                    la = a if ta != "Rat" else f"(some {a})"
+                    lb = b if tb != "Rat" else f"(some {b})"
+                    return f"(lift2 (· - ·) {la} {lb})", "OptF"
                 if {ta, tb} <= {"Rat", "OptF"}:      # NaN-propagating float arithmetic
                     la = a if ta == "OptF" else f"(some {a})"
                     lb = b if tb == "OptF" else f"(some {b})"
@@ -706,6 +721,12 @@ class Emit:
                 raise Unsupported("shift of a non-integer")
             if op == "<" and ta == "OptNat" and tb == "OptNat":
                 return f"(optLt {a} {b})", "Bool"
+            if op == ">=" and ta == "Rat" and tb == "SentLo":
+                return f"(geS {a} {b})", "Bool"
+            if op == "<=" and ta == "Rat" and tb == "SentHi":
+                return f"(leS {a} {b})", "Bool"
+            if op == "!=" and {ta, tb} == {"SentLo", "SentHi"}:
+                return f"(sentNe {a} {b})", "Bool"
             if op in ("<", ">", "<=", ">=", "==", "!="):
                 if ta == tb and ta in ("Nat", "Rat"):
                     lop = {"<": "<", ">": ">", "<=": "≤", ">=": "≥", "==": "=", "!=": "≠"}[op]
@@ -827,8 +848,8 @@ class Emit:
             if name in ("f64",) and not args:
                 if tr == "Nat":
                     return f"(({r} : Nat) : Rat)", "Rat"
-                if tr == "Rat":
-                    return r, "Rat"
+                if tr in ("Rat", "OptF"):
+                    return r, tr
                 raise Unsupported(f".f64() on {tr}")
             if name == "cast" and not args:
                 return r, tr
@@ -887,6 +908,10 @@ class Emit:
                 return "(0 : Rat)", "Rat"
             if re.fullmatch(r"(\w+::)*none", e[1]) and not e[2]:
                 return "none", "OptF"
+            if re.fullmatch(r"(\w+::)*min_", e[1]) and not e[2]:
+                return "(none : Option Rat)", "SentLo"      # `T::MIN`: below every value
+            if re.fullmatch(r"(\w+::)*max_", e[1]) and not e[2]:
+                return "(none : Option Rat)", "SentHi"      # `T::MAX`: above every value
             if e[1] == "Some" and len(e[2]) == 1:
                 a, ta = self.ex0(e[2][0], env)
                 if ta == "Nat":
@@ -968,6 +993,51 @@ class Emit:
                 raise Unsupported("non-exhaustive match")
             # a named selector instead of an anonymous `match`: lemmas about it are reusable
             return (f"ordCases {stxt}\n" + "\n".join("  (" + sel[c].replace("\n", "\n   ") + ")" for c in (".lt", ".eq", ".gt"))), tys[0]
+        if k == "matchg":
+            # `match (c1, c2) { (true, false) => …, … }` over booleans: the conditions once, then the arms
+            # in source order
+            scr = e[1][1] if e[1][0] == "paren" else e[1]
+            if scr[0] != "tuple":
+                raise Unsupported("guarded match on a non-tuple")
+            conds = []
+            for c in scr[1]:
+                ct, cty = self.ex0(c, env)
+                if cty != "Bool":
+                    raise Unsupported("match tuple component is not boolean")
+                conds.append(ct)
+            k_ = len(conds)
+            covered = set()
+            arms = []
+            import itertools
+            for pats, guard, body in e[2]:
+                if guard is not None or len(pats) != 1:
+                    raise Unsupported("guard / or-pattern in a boolean tuple match")
+                q = pats[0]
+                if q == "_":
+                    q = ("tuplepat", ["_"] * k_)
+                if not (isinstance(q, tuple) and q[0] == "tuplepat" and len(q[1]) == k_):
+                    raise Unsupported("boolean tuple pattern")
+                here = set(c for c in itertools.product((True, False), repeat=k_)
+                           if all(p == "_" or (p == "true") == b for p, b in zip(q[1], c)))
+                lits = [f"m{i}__" if p == "true" else f"!m{i}__" for i, p in enumerate(q[1]) if p != "_"]
+                if body[0] == "block" and not body[1] and body[2] == ("tuple", []):
+                    body = ("block", [], None)
+                btxt, bty = self.stmts(body[1], body[2], dict(env), outs, expect)
+                arms.append((" && ".join(lits) if lits else "true", btxt, bty, bool(here - covered)))
+                covered |= here
+            if len(covered) != 2 ** k_:
+                raise Unsupported("non-exhaustive boolean tuple match")
+            arms = [a for a in arms if a[3]]
+            if any(a[2] != arms[0][2] for a in arms):
+                raise Unsupported("match arms of different types")
+            txt = ""
+            for i, (c, btxt, _t, _r) in enumerate(arms):
+                if i == len(arms) - 1:
+                    txt += f"\n{indent(btxt)}"
+                else:
+                    txt += f"{'' if i == 0 else chr(10)}if ({c}) then\n{indent(btxt)}\nelse"
+            lets = "".join(f"let m{i}__ := {c}\n" for i, c in enumerate(conds))
+            return lets + txt, arms[0][2]
         if k == "mcall" and self.loop_kind(e) is not None:
             return self.loop(e, env, outs, expect)
         if k == "for":
@@ -1281,7 +1351,7 @@ class Emit:
                             raise Unsupported(f"early return of {r_ty} in a block of {rest_ty}")
                     lines.append(f"if {ctxt} then\n{indent(r_txt)}\nelse\n{indent(rest_txt)}")
                     return "\n".join(lines), rest_ty
-                if e[0] not in ("if", "iflet", "block", "match", "for") and self.loop_kind(e) is None:
+                if e[0] not in ("if", "iflet", "block", "match", "matchg", "for") and self.loop_kind(e) is None:
                     raise Unsupported("expression statement")
                 if not inner:
                     continue            # no effect on the state
@@ -1291,7 +1361,7 @@ class Emit:
                 lines.append(f"let {tuple_txt([lname(o) for o in inner])} :=\n{indent(txt)}")
         ret = [lname(o) for o in outs]
         ty = None
-        if tail is not None and tail[0] in ("if", "iflet", "block", "match", "for") and is_unit(tail):
+        if tail is not None and tail[0] in ("if", "iflet", "block", "match", "matchg", "for") and is_unit(tail):
             inner = [o for o in assigned_outer(tail) if o in env]
             if inner:
                 txt, ty0 = self.effect(tail, env, inner, None)
